@@ -91,3 +91,75 @@ def as_assumed(specs, keys):
             s.pop(x, None)
         out[k] = s
     return out
+
+
+# ---------------------------------------------------------------------------
+# wire-level types (protocol/types.rs) and the enum <-> integer conversions.
+# The FromSpecImpl oracles below are written from the RFC 1035 tables (section 3.2.2-3.2.5, 4.1.1; AAAA=28 RFC 3596,
+# SRV=33 RFC 2782), not from the code; with obeys_from_spec() == true Verus checks each real `from` body against them.
+RTYPE_TABLE = [("A", 1), ("NS", 2), ("MD", 3), ("MF", 4), ("CNAME", 5), ("SOA", 6), ("MB", 7), ("MG", 8), ("MR", 9),
+               ("NULL", 10), ("WKS", 11), ("PTR", 12), ("HINFO", 13), ("MINFO", 14), ("MX", 15), ("TXT", 16), ("AAAA", 28), ("SRV", 33)]
+
+
+def _conv_oracles():
+    o = []
+    rt_from = " else ".join(f"if v == {c} {{ RecordType::{n} }}" for n, c in RTYPE_TABLE) + " else { RecordType::Unknown(RecordTypeUnknown(v)) }"
+    rt_to = ", ".join(f"RecordType::{n} => {c}" for n, c in RTYPE_TABLE) + ", RecordType::Unknown(RecordTypeUnknown(x)) => x"
+    o.append(f"""
+pub closed spec fn spec_rtype_from(v: u16) -> RecordType {{ {rt_from} }}
+pub closed spec fn spec_rtype_to(t: RecordType) -> u16 {{ match t {{ {rt_to} }} }}
+pub closed spec fn spec_qtype_from(v: u16) -> QueryType {{
+    if v == 252 {{ QueryType::AXFR }} else if v == 253 {{ QueryType::MAILB }} else if v == 254 {{ QueryType::MAILA }} else if v == 255 {{ QueryType::Wildcard }} else {{ QueryType::Record(spec_rtype_from(v)) }} }}
+pub closed spec fn spec_qtype_to(t: QueryType) -> u16 {{ match t {{ QueryType::AXFR => 252, QueryType::MAILB => 253, QueryType::MAILA => 254, QueryType::Wildcard => 255, QueryType::Record(r) => spec_rtype_to(r) }} }}
+pub closed spec fn spec_rclass_from(v: u16) -> RecordClass {{ if v == 1 {{ RecordClass::IN }} else {{ RecordClass::Unknown(RecordClassUnknown(v)) }} }}
+pub closed spec fn spec_rclass_to(t: RecordClass) -> u16 {{ match t {{ RecordClass::IN => 1, RecordClass::Unknown(RecordClassUnknown(x)) => x }} }}
+pub closed spec fn spec_qclass_from(v: u16) -> QueryClass {{ if v == 255 {{ QueryClass::Wildcard }} else {{ QueryClass::Record(spec_rclass_from(v)) }} }}
+pub closed spec fn spec_qclass_to(t: QueryClass) -> u16 {{ match t {{ QueryClass::Wildcard => 255, QueryClass::Record(r) => spec_rclass_to(r) }} }}
+pub closed spec fn spec_opcode_from(v: u8) -> Opcode {{ let x = v & 0x0f; if x == 0 {{ Opcode::Standard }} else if x == 1 {{ Opcode::Inverse }} else if x == 2 {{ Opcode::Status }} else {{ Opcode::Reserved(OpcodeReserved(x)) }} }}
+pub closed spec fn spec_opcode_to(t: Opcode) -> u8 {{ match t {{ Opcode::Standard => 0, Opcode::Inverse => 1, Opcode::Status => 2, Opcode::Reserved(OpcodeReserved(x)) => x }} }}
+pub closed spec fn spec_rcode_from(v: u8) -> Rcode {{ let x = v & 0x0f; if x == 0 {{ Rcode::NoError }} else if x == 1 {{ Rcode::FormatError }} else if x == 2 {{ Rcode::ServerFailure }} else if x == 3 {{ Rcode::NameError }} else if x == 4 {{ Rcode::NotImplemented }} else if x == 5 {{ Rcode::Refused }} else {{ Rcode::Reserved(RcodeReserved(x)) }} }}
+pub closed spec fn spec_rcode_to(t: Rcode) -> u8 {{ match t {{ Rcode::NoError => 0, Rcode::FormatError => 1, Rcode::ServerFailure => 2, Rcode::NameError => 3, Rcode::NotImplemented => 4, Rcode::Refused => 5, Rcode::Reserved(RcodeReserved(x)) => x }} }}
+""")
+    for (a, b, f) in [("u16", "RecordType", "spec_rtype_from"), ("RecordType", "u16", "spec_rtype_to"),
+                      ("u16", "QueryType", "spec_qtype_from"), ("QueryType", "u16", "spec_qtype_to"),
+                      ("u16", "RecordClass", "spec_rclass_from"), ("RecordClass", "u16", "spec_rclass_to"),
+                      ("u16", "QueryClass", "spec_qclass_from"), ("QueryClass", "u16", "spec_qclass_to"),
+                      ("u8", "Opcode", "spec_opcode_from"), ("Opcode", "u8", "spec_opcode_to"),
+                      ("u8", "Rcode", "spec_rcode_from"), ("Rcode", "u8", "spec_rcode_to")]:
+        o.append(f"""impl vstd::std_specs::convert::FromSpecImpl<{a}> for {b} {{
+    open spec fn obeys_from_spec() -> bool {{ true }}
+    closed spec fn from_spec(v: {a}) -> Self {{ {f}(v) }}
+}}""")
+    return "\n".join(o)
+
+
+CONV_IMPLS = ["From<u8> for Opcode", "From<Opcode> for u8", "From<u8> for Rcode", "From<Rcode> for u8",
+              "From<u16> for QueryType", "From<QueryType> for u16", "From<u16> for QueryClass", "From<QueryClass> for u16",
+              "From<u16> for RecordType", "From<RecordType> for u16", "From<u16> for RecordClass", "From<RecordClass> for u16"]
+
+UNIMPL_CLONE = """impl Clone for %(T)s {
+    #[verifier::external_body]
+    fn clone(&self) -> (r: Self) ensures r == *self { unimplemented!() }
+}"""
+
+
+def wire_types(G, conv_props=(), conv_mode="prove"):
+    """Message .. RecordClass and the conversion impls.  conv_props: properties charged with a failing conversion body."""
+    T = G.src(TYPES)
+    for c in ("HEADER_MASK_QR", "HEADER_MASK_OPCODE", "HEADER_OFFSET_OPCODE", "HEADER_MASK_AA", "HEADER_MASK_TC", "HEADER_MASK_RD",
+              "HEADER_MASK_RA", "HEADER_MASK_RCODE", "HEADER_OFFSET_RCODE"):
+        G.item(T, "const", c)
+    for (k, n) in (("struct", "Message"), ("struct", "Question"), ("struct", "ResourceRecord"), ("enum", "RecordTypeWithData")):
+        G.item(T, k, n, drop_derive=("Clone",))
+        G.raw(UNIMPL_CLONE % {"T": n})
+        G.fired["R12"] = G.fired.get("R12", 0) + 1
+    for (k, n) in (("struct", "Header"), ("enum", "Opcode"), ("struct", "OpcodeReserved"), ("enum", "Rcode"), ("struct", "RcodeReserved"),
+                   ("enum", "QueryType"), ("enum", "QueryClass"), ("enum", "RecordType"), ("struct", "RecordTypeUnknown"),
+                   ("enum", "RecordClass"), ("struct", "RecordClassUnknown")):
+        G.item(T, k, n)
+    G.raw(_conv_oracles(), ("spec", "conversion oracles (RFC tables)"))
+    specs = {}
+    for impl in CONV_IMPLS:
+        key = "conv::" + impl.replace(" ", "_") + "::"
+        specs[key + "from"] = {"props": list(conv_props), "mode": conv_mode, "contract": ""}
+        G.impl(T, impl, ["from"], key, specs)
